@@ -116,7 +116,7 @@ def dirs_of(S):
 def dirs_axiom(S):
     h = HashInfo.fresh("h!d")
     D = dirs_of(S)
-    return SV(z3.ForAll([h.t], D.contains(h).t == z3.And(S.contains(h).t, isdir_hi(h).t), patterns=[D.contains(h).t]), TBool)
+    return SV(z3.ForAll([h.t], D.contains(h).t == z3.And(S.contains(h).t, isdir_hi(h).t), patterns=[D.contains(h).t, S.contains(h).t]), TBool)
 
 
 def _loop0_inv(c):  # partition of obj_ids into dir_ids / file_ids
